@@ -203,7 +203,21 @@ class FindCacheFile(namedtuple('FindCacheFile', ['regen_files', 'cache'])):
                    FindCache.from_json(data['cache'], context))
 
 
+def _with_ancestors(env, dirs):
+    # Renaming a directory changes its parent, not the directory itself, so
+    # to notice a searched directory being replaced wholesale (`mv src old &&
+    # mv new src`) the directories above it have to be watched as well.
+    result = list(dirs)
+    for i in dirs:
+        while i.suffix:
+            i = i.parent()
+            if i not in result and _path.exists(i, env.base_dirs):
+                result.append(i)
+    return result
+
+
 def write_depfile(env, path, output, seen_dirs, makeify=False):
+    seen_dirs = _with_ancestors(env, uniques(seen_dirs))
     with _path.atomic_write(path.string(env.base_dirs)) as f:
         # Since this file is in the build dir, we can use relative dirs for
         # deps also in the build dir.
